@@ -369,10 +369,10 @@ def run(tier, seed):
     futs = {}
     for cfg in range_cfgs:
         # Walk() recurses once per loop iteration (up to 256 deep for the 8-bit types): larger thread stacks
-        futs[cfg] = ex.submit(_tlc, "RangeLoop", cfg=cfg, workers=nw, timeout=2400 if thorough else 900, deadlock=False,
+        futs[cfg] = ex.submit(_tlc, "RangeLoop", cfg=cfg, workers=nw, timeout=3300 if thorough else 900, deadlock=False,
                               env={"JAVA_TOOL_OPTIONS": "-Xss64m"})
         time.sleep(0.3)
-    futs[iter_cfg] = ex.submit(_tlc, "IterMutation", cfg=iter_cfg, workers=nw, timeout=2400 if thorough else 900,
+    futs[iter_cfg] = ex.submit(_tlc, "IterMutation", cfg=iter_cfg, workers=nw, timeout=3300 if thorough else 900,
                                deadlock=False, coverage=True)
     fb = ex.submit(core.build_many, build_specs())
     tl = {}
@@ -482,8 +482,9 @@ def run(tier, seed):
                 if pred is not None and c == pred:
                     oc_ = "wrap-as-modelled"
                 rep.disagree(desc, oc_, {"module": tab.module, "call": call, "want": want, "got": c, "model_predicts": pred})
-        if tab.calls:
-            i = rng.randrange(len(tab.calls))
+        nt = [i for i, m in enumerate(tab.meta) if isinstance(m[0], str) or m[0][0]][:5000]
+        if nt:
+            i = rng.choice(nt)
             samples.append({"module": tab.module, "call": tab.calls[i], "expected": tab.meta[i][0], "compiled": oc[i], "cpython": op[i]})
     n_nontriv = len(distinct)
 
@@ -497,7 +498,9 @@ def run(tier, seed):
                 bad_want = [[], L.SENT, True]
             else:
                 bad_want = [list(want[0]) + [12345]] + list(want[1:])
-            if op[idx] == bad_want or op[idx] != want:
+            if op[idx] != want:
+                continue        # reported as drift below
+            if op[idx] == bad_want:
                 core.die("binding self-test failed on %s %r" % (tab.module, tab.calls[idx]))
             k += 1
     stats["corrupted_expectations_rejected"] = k
@@ -543,6 +546,10 @@ def replay(path, seed):
     write_p_modules(pdir, CONST_TRIPLES)
     rc = 0
     for case in rec["cases"]:
+        if "module" not in case:      # a failed build
+            print(json.dumps(case)[:3000])
+            bad = [b for b in builds.values() if not b.ok]
+            return 1 if bad else 0
         mod, call = case["module"], case["call"]
         b = builds[mod]
         c = L.run_table(os.path.dirname(b.so), mod, [call], True, "rc")[0]
